@@ -4,7 +4,7 @@
    le_len/le_encode/le_decode (low entropy body codec) are universally quantified; what is assumed
    of them is written as premises of each theorem. *)
 From Coq Require Import List NArith ZArith Bool.
-From M Require Import gen.Consts model.TcpStream model.TcpStreamWire proofs.TcpStreamProofs proofs.TcpStreamInst proofs.TcpStreamExamples.
+From M Require Import gen.Consts model.TcpStream model.TcpStreamWire proofs.TcpStreamProofs proofs.TcpStreamInst proofs.TcpStreamExamples proofs.TcpStreamBackpressure.
 Import ListNotations.
 Open Scope N_scope.
 
@@ -169,3 +169,18 @@ Theorem C01_tcp_tamper_prefix_concrete :
                  fst (feed open (parse_w now) le_decode_w (snd (feed open (parse_w now) le_decode_w r_init x)) y) = []).
 Proof. exact tamper_prefix_concrete. Qed.
 Print Assumptions C01_tcp_tamper_prefix_concrete.
+
+(* receiver-side hand-off (deliverSegmentToSession -> recvChan -> input loop -> bounded recvQueue): the input
+   loop WAITS for room in recvQueue (waitForRecvQueueSpace gives up only when the session is closed).  For every
+   capacity and every interleaving of parsing (HParsed), input-loop attempts (HDeliver) and application reads
+   (HRead) on an open session: the bytes read so far followed by everything still held (unreadBuf, recvQueue,
+   pending) are exactly what was held before followed by what was parsed since, in order - nothing parsed is
+   dropped, duplicated or reordered - and recvQueue never exceeds its capacity. *)
+Theorem C01_backpressure_lossless : forall (cap : nat) (evs : list hev) (st : hst),
+  h_closed st = false -> no_close evs = true ->
+  let (outs, st') := run_h cap st evs in
+  h_closed st' = false /\
+  concat outs ++ h_flat st' = h_flat st ++ concat (parsed_of evs) /\
+  (length (rd_queue (h_rd st')) <= Nat.max cap (length (rd_queue (h_rd st))))%nat.
+Proof. exact backpressure_lossless. Qed.
+Print Assumptions C01_backpressure_lossless.
